@@ -102,8 +102,11 @@ def replay(ctx, body):
     """Replays the exemplar mutations of a rejected bucket on their base file."""
     ctx.build()
     if "hdrchain" in body["case"]:
-        path = ctx.write_cases([body["case"]["hdrchain"]])
-        trace, _ = ctx.drive("hdrchain", path)
+        if "family" in body["case"]["hdrchain"]:
+            trace, _ = ctx.drive("dagopen", None)
+        else:
+            path = ctx.write_cases([body["case"]["hdrchain"]])
+            trace, _ = ctx.drive("hdrchain", path)
         verdict, _ = ctx.validate("HdrChainTrace.tla", "HdrChain_trace.cfg", trace)
         H.log("VERDICT " + json.dumps(verdict))
         return 1 if verdict["bad"] else 0
